@@ -156,6 +156,14 @@ def parse_output(text):
 
 # ------------------------------------------------------------------ generator
 
+def has_call(e):
+    k = e[0]
+    if k in ("call", "callvar"): return True
+    if k == "bin": return has_call(e[2]) or has_call(e[3])
+    if k == "un": return has_call(e[2])
+    if k == "cast": return has_call(e[1])
+    return False
+
 def always_exits(s):
     """does control never reach the statement after s? (the compiler rejects such code as unreachable)"""
     k = s[0]
@@ -179,6 +187,7 @@ class Gen:
         self.fns = []      # signatures of already generated functions: (params types, ret, recursive?)
         self.budget = 0
         self.features = {}
+        self.gate_eager_logic = True      # open finding F-LOGIC-EAGER: && / || evaluate their right operand unconditionally
         self.gate_self_operand = False    # (was a gate for F-QBE-SELF-OPERAND, repaired by 340ec5d)
 
     def feat(self, k):
@@ -261,7 +270,16 @@ class Gen:
             return ("un", "!", self.bool_expr(env, d - 1, nonlit=True))
         if c in ("and", "or"):
             self.feat(c)
-            return ("bin", "&&" if c == "and" else "||", self.bool_expr(env, d - 1, nonlit=True), self.bool_expr(env, d - 1, nonlit=True))
+            lhs = self.bool_expr(env, d - 1, nonlit=True)
+            rhs = self.bool_expr(env, d - 1, nonlit=True)
+            if self.gate_eager_logic:
+                for _ in range(6):
+                    if not has_call(rhs): break
+                    rhs = self.bool_expr(env, max(d - 2, 0), nonlit=True)
+                if has_call(rhs):
+                    rhs = self.bool_expr(env, 0, nonlit=True)
+                    if has_call(rhs): rhs = ("bool", True)
+            return ("bin", "&&" if c == "and" else "||", lhs, rhs)
         if c == "call":
             return self.call_expr("bool", env, d)
         t = r.choice(self.itys)
@@ -415,11 +433,13 @@ class Gen:
         env2 = env + [{}]
         # the block's own scope is gone: only params are visible for the final return
         if rec:
-            # register self so the final expression may recurse with n - 1
-            self.fns.append(([t for _, t in params], ret, True))
+            # the only self call is f(n - 1, ...): operands are generated before the function is registered,
+            # so that no other (unbounded) self call can appear in its own body
             n = params[0][0]
             args = [("bin", "-", ("var", n), ("lit", "i32", 1))] + [self.expr(t, env, 1) for _, t in params[1:]]
-            final = ("bin", r.choice(["+", "-", "*"]), ("call", k, args), self.int_expr(ret, env, 1))
+            other = self.int_expr(ret, env, 1)
+            self.fns.append(([t for _, t in params], ret, True))
+            final = ("bin", r.choice(["+", "-", "*"]), ("call", k, args), other)
             self.feat("recursion")
             body.append(("return", final))
             return dict(params=params, ret=ret, body=body)
